@@ -1,9 +1,9 @@
 #!/bin/bash
-# MANIFEST.setup_cmd: builds both worker binaries once (offline) so that later checks only rebuild incrementally.
+# MANIFEST.setup_cmd: compiles every property worker once (offline) so that later checks only rebuild incrementally.
 set -e
 cd "$(dirname "$0")/harness"
 export GOFLAGS=-mod=mod GOPROXY=off GOSUMDB=off GOTOOLCHAIN=local GOWORK=off
 mkdir -p ../.build
-go build -tags verif -o /dev/null ./cmd/worker
-go build -tags verif -race -o /dev/null ./cmd/worker
+for d in props/c*/; do p=$(basename $d); go build -tags verif -o /dev/null ./cmd/w/$p; done
+go build -tags verif -race -o /dev/null ./cmd/w/c09
 echo setup ok
